@@ -1,10 +1,11 @@
 INIT TraceInit
 NEXT TNext
 CONSTANTS
-  Kinds = {"honest", "alt_leaf", "omit_leaf", "drop_proof", "alt_proof", "wrong_id", "wrong_tree", "stale"}
+  Kinds = {"honest", "alt_leaf", "omit_leaf", "drop_proof", "alt_proof", "wrong_id", "wrong_tree", "stale", "poison_spent"}
   BatchSize = 4
   ValidateFirst = TRUE
   RootCheck = TRUE
+  ResetClearsBitmap = TRUE
 CHECK_DEADLOCK FALSE
 POSTCONDITION Accepted
-INVARIANTS NeverFinaliseWrongRoots OnlyGoodCached
+INVARIANTS NeverFinaliseWrongRoots GoodRetryHasRoots
